@@ -509,6 +509,11 @@ class Recorder(object):
             f = dec(self.funcs[i - 1])
             if self.cfg.get('reuse'):
                 dec(stubs.other_function)        # the same decorator object decorates a second function (never called)
+            if self.cfg.get('sibling'):
+                # ... and a sibling stub with the same signature and the same values, which op 'sibcall' calls
+                if not hasattr(self, 'sib'):
+                    self.sib = {}
+                self.sib[i] = dec(self.funcs[i % len(self.funcs)])
             f.info()
             self.inst[i - 1] = f
             self.icfg[i - 1] = icfg
@@ -702,6 +707,12 @@ class Recorder(object):
                 f.info()
             elif name == 'wrapped':
                 ev['ret'] = 1 if f.__wrapped__ is self.funcs[i - 1] else 0
+            elif name == 'sibcall':
+                ent = self.args[o['a'] - 1]
+                try:
+                    getattr(self, 'sib', {})[i](*ent['args'], **ent['kw'])
+                except BaseException:
+                    pass             # (what the sibling does is its own business: only f's account is judged)
             elif name == 'clone':
                 import dill
                 j = o['j']
